@@ -166,7 +166,8 @@ def build_harness(container):
     with Lock("cc_" + container):
         if exe.exists():
             return exe, ""
-        for old in bindir.glob(f"h_{container}_*"):
+        olds = sorted(bindir.glob(f"h_{container}_*"), key=lambda q: q.stat().st_mtime)
+        for old in olds[:-5]:
             old.unlink()
         tmp = bindir / f".tmp_{container}_{os.getpid()}"
         cmd = ["gcc"] + CFLAGS + [f"-I{REPO}/src/include", f"-I{REPO}/src/include/sized",
